@@ -3,6 +3,12 @@ import re
 import common as C
 import flow
 import tables as T
+import json as _json
+
+
+def json_dumps(x):
+    return _json.dumps(x)
+
 
 RT = "diplomat_core::hir::methods::ReturnType"
 
@@ -631,6 +637,45 @@ def run(ck, facts):
                               "a use-site lifetime is looked up in the struct's definition environment", C.loc(f, x.get("ln")))
     if n6 < 4:
         ck.bad("R6", "floor", "only %d branded fmt_lifetime calls found (4 counted: dart and js, def and use)" % n6)
+    # a conversion that recurses into the payload of an option hands its borrow context on unchanged: the struct inside `Option<Struct<'a>>` borrows exactly like the
+    # struct itself (a dropped context sends its slice fields to the per-call arena, freed while the output still borrows them)
+    nrec = 0
+    for f in tool.fn_list:
+        if "hir" not in f or f.get("exp") or f.get("dk") == "Closure" or not re.match(r"^diplomat_tool::(dart|js)::", C.norm_path(f["path"])):
+            continue
+        ins = f.get("inputs") or []
+        ps = f["hir"].get("params") or []
+        ctx_pos = [i for i, t_ in enumerate(ins) if "StructBorrowContext" in t_ and i < len(ps) and isinstance(ps[i], dict)]
+        if not ctx_pos:
+            continue
+        for x in C.walk(C.fn_body(f)):
+            if x.get("k") in ("call", "mcall") and C.norm_path(x.get("p") or C.callee(x) or "") == C.norm_path(f["path"]):
+                args = ([x["recv"]] + list(x.get("a") or [])) if x.get("k") == "mcall" else list(x.get("a") or [])
+                for i in ctx_pos:
+                    if i < len(args):
+                        nrec += 1
+                        a0 = C.strip(args[i])
+                        fk = C.norm_path(f["path"]).replace("diplomat_tool::", "")
+                        ck.expect(a0.get("k") == "local" and a0.get("id") == ps[i].get("id"), "R1", "%s/recursion-forwards-borrow-context#%d" % (fk, sum(1 for i_ in ck.instances if i_["key"].startswith(fk + "/recursion-forwards"))),
+                                  "forwarded", "%s calls itself for a nested type with `%s` in place of its own borrow context: the nested struct's borrowed fields are allocated in the temporary arena" %
+                                  (f["name"], a0.get("n") or (a0.get("ctor") or a0.get("p") or a0.get("k") or "?").split("::")[-1]), C.loc(f, x.get("ln")))
+    if nrec < 2:
+        ck.bad("R1", "recursion-forwards-borrow-context/floor", "only %d recursive conversion calls carrying a StructBorrowContext found in dart/js (2 counted)" % nrec)
+    # "does this field use lifetime 'x" is asked of Type::lifetimes() and of nothing else (no kind of type answers by a rule of its own: a borrowed opaque `&'r Op<'d>` uses 'd too)
+    npred = 0
+    for f in tool.fn_list:
+        if "hir" not in f or f.get("dk") == "Closure" or not f["path"].endswith("does_type_use_lifetime_from_set"):
+            continue
+        npred += 1
+        bodyp = C.fn_body(f)
+        special = [x for x in C.walk(bodyp) if (x.get("k") == "match" and (x.get("sadt") or "").endswith("hir::types::Type")) or
+                   (x.get("k") == "if" and C.strip_keep_macro(x["c"]).get("k") == "let" and "types::Type" in json_dumps(C.strip_keep_macro(x["c"]).get("pat"))) or x.get("k") == "ret"]
+        uses_all = any(x.get("k") == "mcall" and x.get("m") == "any" and any(y.get("k") == "mcall" and y.get("m") == "lifetimes" for y in C.walk(x["recv"])) for x in C.walk(bodyp))
+        ck.expect(uses_all and not special, "R6", "%s/asks-Type::lifetimes-only" % C.norm_path(f["path"]).replace("diplomat_tool::", ""), "lifetimes().any(..)",
+                  "the field filter behind `_fieldsForLifetimeX` answers for some kind of type by a rule of its own instead of Type::lifetimes(): a field that carries the lifetime is left out of "
+                  "the edge list, and what the output borrows through it is not kept alive", C.loc(f))
+    if npred < 2:
+        ck.bad("R6", "asks-Type::lifetimes-only/floor", "only %d `does_type_use_lifetime_from_set` predicates found (2 counted: dart, js)" % npred)
     # a function that is handed the enclosing item's LifetimeEnv names lifetimes of THAT scope: every fmt_lifetime call in it goes through that parameter (an
     # edge list passed to a nested struct is the enclosing scope's list for the lifetime substituted at the use site, `bEdges`, not the nested definition's `aEdges`)
     nenv = 0
